@@ -375,6 +375,9 @@ def install(I):
             panic_ob(I, st, ctx, "index:range", ok1 and ok2, "slice [%s..%s] may be out of range for length %s" % (I.show(lo), I.show(hi), I.show(ln)))
             nstart = lo if int_const(start) == 0 else int_binop("Add", start, lo)
             nlen = int_binop("Sub", hi, lo) if ok1 else top_int(64)
+            dn = I.term_offset(lo[6], hi[6]) if is_int(lo) and is_int(hi) else None
+            if ok1 and dn is not None and dn >= 0:
+                nlen = const(dn, 64)          # hi is lo + n: the window has exactly n elements
             return [(ptr(loc[0], loc[1], loc[2], (nstart, nlen), mut), st)]
         return [(TOP, st)]
 
